@@ -57,14 +57,41 @@ pub fn live_run(
     nops: usize,
     tweak: impl FnOnce(&mut GenCfg),
 ) -> Result<LiveRun, String> {
+    let mut gen: Option<Gen> = None;
+    let mut tweak = Some(tweak);
+    live_run_with(dir, policy, key, profile, |k, cursor, file_size| {
+        if k >= nops {
+            return None;
+        }
+        let g = gen.get_or_insert_with(|| {
+            let mut cfg = GenCfg::new(profile, nq, file_size.max(1));
+            if let Some(t) = tweak.take() {
+                t(&mut cfg);
+            }
+            Gen::new(seed_parts, cfg)
+        });
+        Some(g.next_op(cursor))
+    })
+}
+
+/// Run a fixed operation list.
+pub fn live_run_ops(dir: &Path, policy: Policy, key: u64, ops: &[Op]) -> Result<LiveRun, String> {
+    live_run_with(dir, policy, key, Profile::Mixed, |k, _, _| ops.get(k).cloned())
+}
+
+/// Core: `next(k, cursor, file_size)` yields the k-th operation or None to stop.
+pub fn live_run_with(
+    dir: &Path,
+    policy: Policy,
+    key: u64,
+    profile: Profile,
+    mut next: impl FnMut(usize, Option<u64>, u64) -> Option<Op>,
+) -> Result<LiveRun, String> {
     crate::util::clear_dir(dir);
     shim::reset_all();
     shim::set_root(dir);
     let mut sut = Sut::open(dir, policy, key, true).map_err(|e| format!("open fresh dir: {:?}", e))?;
     let file_size = sut.log().resource_usage().disk_used_bytes as u64;
-    let mut cfg = GenCfg::new(profile, nq, file_size.max(1));
-    tweak(&mut cfg);
-    let mut gen = Gen::new(seed_parts, cfg);
     let mut run = LiveRun {
         ops: Vec::new(),
         outcomes: Vec::new(),
@@ -79,8 +106,8 @@ pub fn live_run(
     let mut cursor = 0u64;
     run.events = shim::take_events(dir);
     shim::reset();
-    for k in 0..nops {
-        let op = gen.next_op(if policy.always() { Some(cursor) } else { None });
+    let mut k = 0usize;
+    while let Some(op) = next(k, if policy.always() { Some(cursor) } else { None }, file_size) {
         let out = sut.apply(k, &op);
         if out.is_io_err() {
             return Err(format!("live I/O error at op {}: {:?}", k, out));
@@ -101,6 +128,7 @@ pub fn live_run(
         run.ops.push(op);
         run.outcomes.push(out);
         run.states.push(snap);
+        k += 1;
     }
     // clean shutdown is NOT part of the trace: the crash happens while the log is live.
     // (Images are rebuilt from the trace, so what the drop flushes into `dir` is irrelevant.)
